@@ -77,6 +77,24 @@ func recordMath(args []string) int {
 			}
 			anchors = append(anchors, [2]string{"sqrt", sq + []string{"", "e-2", "e4", "e-10"}[k%4]})
 		}
+		// sqrt(x * x) = x for x of 9-15 significant digits (the operand of sqrt then has up to 30 digits)
+		for k := 0; k < 16; k++ {
+			d := 9 + rng.Intn(7)
+			ds := make([]byte, d)
+			for j := range ds {
+				ds[j] = byte('0' + rng.Intn(10))
+			}
+			ds[0] = "345"[rng.Intn(3)] // leading digits 3.16..5: where rounding the operand first goes wrong most often
+			if k%4 == 3 {
+				ds[0] = byte('1' + rng.Intn(9))
+			}
+			ds[d-1] = byte('1' + rng.Intn(9))
+			x := string(ds[:1]) + "." + string(ds[1:])
+			if k%3 == 1 {
+				x = string(ds[:d-2]) + "." + string(ds[d-2:])
+			}
+			anchors = append(anchors, [2]string{"sqrt", "(" + x + " * " + x + ")"})
+		}
 		for _, a := range anchors {
 			if err := add(a[0], a[1]); err != nil {
 				fmt.Fprintln(os.Stderr, err)
